@@ -313,6 +313,11 @@ def c12_jobs(tier):
             js.append(ops_job(op, 'int', n, cap, maxsz=m, witness=W))
             if tier != 'quick' or (op in ('insert_n', 'push_back_c', 'resize_v', 'append_range') and (n, cap) == (2, 4)):
                 js.append(ops_job(op, 'Tr', n, cap, maxsz=m, witness=W))
+    # requests anywhere in the range of size_type (all 2^8 / 2^64 counts beyond max_size): must throw before touching anything; catches wrap-around in size()+count
+    for op in ['insert_n', 'resize', 'resize_v', 'assign_n', 'reserve']:
+        for st in ['uint8_t', 'std::size_t'] + ([] if tier == 'quick' else ['uint16_t', 'uint32_t']):
+            for (n, cap) in ([(2, 4)] if tier == 'quick' else [(2, 4), (2, 2), (0, 2)]):
+                js.append(ops_job(op, 'int', n, cap, bigcnt=True, sizet=st, witness=['length_error exit']))
     # narrow size_type allocators: same operations, size_type = uint8_t / uint16_t (internal size type uint_fast8_t is 8 bits here)
     for op in (['insert_n', 'push_back_c', 'resize_v', 'assign_n', 'reserve', 'append_range'] if tier == 'quick' else grow):
         for st in ['uint8_t', 'uint16_t'] + ([] if tier == 'quick' else ['uint32_t']):
